@@ -162,10 +162,12 @@ def c01_tag_on_structurally_consumed_node(case, detail):
     a merge list, or the single-pair mapping entry of an !!omap / !!pairs sequence; flatten_mapping / construct_yaml_omap /
     construct_yaml_pairs read its children without looking at its tag, so a non-core tag there is ignored, not rejected"""
     ctx, kind = case.get('context'), case.get('kind')
+    mapping_kinds = ('map-empty', 'map-ab', 'long', 'state-dunder', 'value-key-scalar', 'value-key-seq', 'value-key-map')
+    one_pair_kinds = ('map-ab', 'value-key-scalar', 'value-key-seq', 'value-key-map')
     if ctx == 'merge':
-        return kind in ('seq-empty', 'map-empty', 'map-ab', 'long', 'state-dunder')
+        return kind == 'seq-empty' or kind in mapping_kinds
     if ctx == 'merge-list':
-        return kind in ('map-empty', 'map-ab', 'long', 'state-dunder')
+        return kind in mapping_kinds
     if ctx in ('omap-entry', 'pairs-entry'):
-        return kind == 'map-ab'
+        return kind in one_pair_kinds
     return False
